@@ -59,3 +59,7 @@ LEVEL_NOTE = ("Trusted: clang 14 front end and CFG builder, the echse-facts extr
               "configure-time config.h; use-after-free and numeric work bounds are not decided.")
 TECHNIQUE = "static analysis: forward must-facts dataflow and loop analysis over clang CFGs, table/extent agreement; value-fixed walk of the INTERVAL reader"
 READY = True
+
+# texts brought up to date with the rules added in the last rounds
+LEVEL_TEXT = LEVEL_TEXT + ' Also: the cursor the INTERVAL/BYMONTH congruence check reads the month off is member + 1 in both representations of the iterator; stepped-back counters are signed; INTERVAL=0 does not reach the fillers.'
+
